@@ -115,6 +115,7 @@ type FS struct {
 	RetiredIDs    map[uint64]bool
 	CreateRetired []string
 	LiveIDs       map[uint64]bool
+	metaHeld      bool              // the metadata store's exclusive lock is held by some Meta view
 	liveBase      map[uint64]uint64 // base index of each listed ID
 	retiredBase   map[uint64]uint64 // base index an ID had when it was retired
 	CreateDup     []string          // Create called on an existing name
@@ -498,9 +499,14 @@ func (fs *FS) RemoveFile(name string) {
 // should get its own (Close only marks that view closed).
 func (fs *FS) Meta() *Meta { return &Meta{fs: fs} }
 
+// ErrMetaLocked: the metadata store is still held by an instance that was never closed. The real
+// store (bolt, exclusive flock, no timeout) would block the second Open forever; the model fails it.
+var ErrMetaLocked = errors.New("simfs: metadata store is locked by an earlier instance that was never closed (the real store would block here)")
+
 type Meta struct {
 	fs     *FS
 	closed bool
+	held   bool // this view holds the store's exclusive lock (taken by Load, dropped by Close)
 	mu     sync.Mutex
 	// CloseErr, if set, is returned by Close (fault injection).
 	CloseErr error
@@ -512,6 +518,11 @@ func (m *Meta) Load(dir string) (types.PersistentState, error) {
 		return st, err
 	}
 	m.fs.mu.Lock()
+	if m.fs.metaHeld && !m.held {
+		m.fs.mu.Unlock()
+		return st, ErrMetaLocked
+	}
+	m.held, m.fs.metaHeld = true, true
 	raw := m.fs.meta
 	m.fs.mu.Unlock()
 	if raw == nil {
@@ -597,6 +608,11 @@ func (m *Meta) Close() error {
 	m.mu.Lock()
 	defer m.mu.Unlock()
 	m.closed = true
+	m.fs.mu.Lock()
+	if m.held {
+		m.held, m.fs.metaHeld = false, false
+	}
+	m.fs.mu.Unlock()
 	return m.CloseErr
 }
 
